@@ -205,6 +205,26 @@ func (g *Gateway) handleLegacyProtocol(w http.ResponseWriter, r *http.Request, t
 		c.Set(t.RDGId, t, cache.DefaultExpiration)
 		verifPoint("legacy.attach")
 		out.SendAccept(true)
+
+		// The client does not send anything on the OUT channel: a read only
+		// returns once the client closed or lost it. The tunnel cannot answer
+		// without it, so end the IN channel, and thereby the packet loop, too.
+		buf := make([]byte, 512)
+		for {
+			if _, err := out.Conn.Read(buf); err != nil {
+				break
+			}
+		}
+		out.Close()
+		t.transportMu.Lock()
+		t.outClosed = true
+		in := t.transportIn
+		t.transportMu.Unlock()
+		if in != nil {
+			in.Close()
+		} else {
+			c.Delete(t.RDGId)
+		}
 	} else if r.Method == MethodRDGIN {
 		defer verifEvent("handler.end", t, "transport", "legacy-in")
 		verifEvent("handler.begin", t, "transport", "legacy-in")
@@ -226,9 +246,15 @@ func (g *Gateway) handleLegacyProtocol(w http.ResponseWriter, r *http.Request, t
 		}
 		defer in.Close()
 
-		if t.transportIn == nil {
-			t.Id = uuid.New().String()
+		t.transportMu.Lock()
+		attach := t.transportIn == nil && !t.outClosed
+		if attach {
 			t.transportIn = in
+		}
+		t.transportMu.Unlock()
+
+		if attach {
+			t.Id = uuid.New().String()
 			c.Set(t.RDGId, t, cache.DefaultExpiration)
 
 			log.Printf("Opening RDGIN for client %s", id.GetAttribute(identity.AttrClientIp))
